@@ -378,6 +378,57 @@ class Time(_Tree):
         it.st.check("P3:reading-the-time-never-raises", z3.BoolVal(False))
 
 
+class Wait(_Tree):
+    """ScopeMetrics.wait(): lets others wait for completion without giving them a handle that completes the scope.
+    gather cancels its children when the waiting task is cancelled (T-GATHER): the completion future itself must therefore
+    never be a child of that gather - only a shield of it."""
+    file, func, name = FILE, "ScopeMetrics.wait", "C09/metrics:ScopeMetrics.wait"
+    nested_wait = z3.Function("C09.nested_wait", Val, Val)
+
+    def setup(self, it, env):
+        st = it.st
+        self.init_model(it)
+        self.s = self.sym_scope(it)
+        self.assume_inv(it)
+        self.focus(it, self.s)
+        self.gathered = []
+        return method(it, self.info, self.s, "wait"), CallArgs()
+
+    def attr(self, it, obj, name, node):
+        if name == "wait":
+            return self.nested_wait(obj)
+        return super().attr(it, obj, name, node)
+
+    def call_unknown(self, it, f, cargs, node):
+        t = it.st.simp(f)
+        if z3.is_app(t) and t.decl().name() == "C09.nested_wait":
+            return t                                    # the awaitable of a nested scope's own wait()
+        return None
+
+    def gather(self, it, aw, idx, node):
+        self.gathered.append(aw)
+        st = it.st
+        fut = self.terms(it)["futv"](V.addr(self.s))
+        bare = [p for p in aw.data["pos"] if st.entails(p == fut)]
+        shields = [p for p in aw.data["pos"] if it.kind(p) == "function" and isinstance(st.fun_of(p), AwaitableV)
+                   and st.fun_of(p).kind == "shield" and st.entails(st.fun_of(p).data["inner"] == fut)]
+        st.check("P4:the-completion-future-is-awaited-only-behind-a-shield(cancelling-a-waiter-never-completes-the-scope)",
+                 z3.BoolVal(not bare and len(shields) == 1))
+        if st.fork(f"await#{idx}:gather", [("all-completed", True), ("waiter-cancelled", True)]) == 0:
+            return lib.new_list(it, [])
+        raise PyRaise(it.new_exc("CancelledError"), "the waiting task was cancelled")
+
+    def on_return(self, it, ret):
+        it.st.check("P4:wait-awaits-the-scope-and-its-nested-scopes-in-one-gather", z3.BoolVal(len(self.gathered) == 1))
+
+    def on_raise(self, it, exc):
+        st = it.st
+        st.check("P4:wait-fails-only-by-cancellation-of-the-waiter", is_exc(it, exc, "CancelledError"))
+        t = self.terms(it)
+        st.check("P4:a-cancelled-waiter-leaves-the-scope-as-it-was",
+                 z3.BoolVal(all(v.eq(st.heap0.get(k, v)) or k.startswith("$") for k, v in st.heap.items())))
+
+
 class IsCompletedLemma(Lemma):
     """L-TREE, induction step: assume the claim for every nested scope of s; then it holds for s."""
     name = "C09/lemma:L-TREE"
@@ -441,7 +492,7 @@ class IsCompletedCode(_Tree):
         it.st.check("P3:is_completed-never-raises", z3.BoolVal(False))
 
 
-CONTRACTS = [CompleteIfAble(), Finish(), Init(), Time(), IsCompletedLemma(), IsCompletedCode()]
+CONTRACTS = [CompleteIfAble(), Finish(), Init(), Time(), Wait(), IsCompletedLemma(), IsCompletedCode()]
 
 
 # ------------------------------------------------------------------------------------------------
